@@ -194,11 +194,21 @@ type netClient struct {
 	mu      sync.Mutex
 	streams map[*netStream]struct{}
 	nStream atomic.Int64 // streams opened so far
+	held    atomic.Bool  // incoming stream data is kept in flight
 }
 
 type netStream struct {
 	litefs.Stream
 	c *netClient
+}
+
+// Read delivers nothing while the node's stream is held (`stream-hold`): frames the primary has
+// sent stay in flight until `stream-release`.
+func (s *netStream) Read(p []byte) (int, error) {
+	for s.c.held.Load() {
+		time.Sleep(time.Millisecond)
+	}
+	return s.Stream.Read(p)
 }
 
 func (s *netStream) Close() error {
@@ -627,6 +637,19 @@ func (m *clusterImpl) Do(line string) string {
 			if n.leaser.ticks.Load() == c0 {
 				return "no-recover"
 			}
+		}
+		return "ok"
+	case "stream-hold", "stream-release": // <k>: what the primary streams to node k stays in flight / is delivered
+		if len(f) != 2 {
+			return "bad-op"
+		}
+		n, _ := m.node(f[1])
+		if n == nil || !n.up {
+			return "bad-op"
+		}
+		n.client.held.Store(f[0] == "stream-hold")
+		if f[0] == "stream-release" {
+			time.Sleep(30 * time.Millisecond)
 		}
 		return "ok"
 	case "halt-bg": // halt-bg <k> <id>: the acquire request is issued in the background (it queues on the primary behind an open application transaction)
